@@ -27,6 +27,10 @@ type Mutex struct {
 	held  bool
 	owner *Thread
 	id    int64
+	// sch is the scheduler under which the mutex is currently held (nil when free or held in pass-through mode). The
+	// unlock goes to the mode the lock was taken in, even if the scheduler has been deactivated in between (the tail of
+	// a goroutine spawned by the code under test may still be unwinding when the last logical thread has finished).
+	sch atomic.Pointer[Sched]
 }
 
 func (m *Mutex) ident() int64 {
@@ -45,7 +49,7 @@ func (m *Mutex) Lock() {
 	m.real.Lock()
 }
 func (m *Mutex) Unlock() {
-	if s := active.Load(); s != nil {
+	if s := m.sch.Load(); s != nil {
 		s.release(m)
 		return
 	}
